@@ -25,14 +25,17 @@ Definition item := (path * leaf)%type.
 Inductive sel := SPrior      (* Prior *)
                | SInfo       (* (Prior, float, int, tuple, ConfigException) *)
                | SParam      (* (Prior, float, tuple) *)
-               | STuple.     (* TuplePrior *)
+               | STuple      (* TuplePrior *)
+               | SModelRec.  (* Model, ignore_children=False *)
 (* class arguments of direct_tuples_with_type *)
 Inductive dsel := DPrior | DTuple | DPriorModel | DFloat | DAbstractModel.
 
 (* keys of `_frozen_cache`: (function name, self, *args) + kwargs items; `form` numbers the
    different spellings of the same call (positional / keyword) which are distinct keys *)
 Inductive ckey := KPit (s : sel) (form : nat) | KAttr (s : sel) (form : nat)
-                | KUnique | KOrdered | KDirect (d : dsel).
+                | KUnique | KOrdered | KDirect (d : dsel)
+                | KMtt (cls : option nat) (izd : bool)     (* model_tuples_with_type(cls, include_zero_dimension=izd) *)
+                | KMwt (cls : option nat) (izd : bool).    (* models_with_type(cls, include_zero_dimension=izd) *)
 Inductive cval := CList (l : list item) | CPromise.
 
 Inductive exn := ETypeError | EAssertion | ELimit | EKeyError | EAttribute | EOther.
@@ -61,12 +64,17 @@ Definition FUEL : nat := 12.
 
 (* ------------------------------------------------------------------ equality *)
 Definition sel_eqb (a b : sel) : bool :=
-  match a, b with SPrior, SPrior | SInfo, SInfo | SParam, SParam | STuple, STuple => true | _, _ => false end.
+  match a, b with SPrior, SPrior | SInfo, SInfo | SParam, SParam | STuple, STuple | SModelRec, SModelRec => true
+                | _, _ => false end.
 Definition dsel_eqb (a b : dsel) : bool :=
   match a, b with DPrior, DPrior | DTuple, DTuple | DPriorModel, DPriorModel | DFloat, DFloat
                 | DAbstractModel, DAbstractModel => true | _, _ => false end.
+Definition optnat_eqb (a b : option nat) : bool :=
+  match a, b with Some x, Some y => Nat.eqb x y | None, None => true | _, _ => false end.
 Definition ckey_eqb (a b : ckey) : bool :=
   match a, b with
+  | KMtt c z, KMtt c' z' => optnat_eqb c c' && Bool.eqb z z'
+  | KMwt c z, KMwt c' z' => optnat_eqb c c' && Bool.eqb z z'
   | KPit s f, KPit s' f' => sel_eqb s s' && Nat.eqb f f'
   | KAttr s f, KAttr s' f' => sel_eqb s s' && Nat.eqb f f'
   | KUnique, KUnique | KOrdered, KOrdered => true
@@ -178,11 +186,15 @@ Definition dedup_last (l : list item) : list item := fold_left (fun d it => dict
 
 Definition last_name (p : path) : path :=
   match rev p with [] => [""] | x :: _ => [x] end.
+Definition item_name (it : item) : string := match fst it with x :: _ => x | [] => "" end.
+Definition item_oid (it : item) : nat := match snd it with LObj o => o | _ => 0 end.
 
 (* ------------------------------------------------------------------ the walk *)
-Definition sel_prior (s : sel) : bool := match s with STuple => false | _ => true end.
+Definition sel_prior (s : sel) : bool := match s with STuple | SModelRec => false | _ => true end.
 Definition sel_float (s : sel) : bool := match s with SInfo | SParam => true | _ => false end.
 Definition sel_obj (s : sel) (k : kind) : bool := match s, k with STuple, KTuple => true | _, _ => false end.
+(* matched but, with ignore_children=False, searched further *)
+Definition sel_also (s : sel) (k : kind) : bool := match s, k with SModelRec, KModel _ => true | _, _ => false end.
 
 Inductive wres := WList (l : list item) | WPromise.
 
@@ -212,7 +224,8 @@ Fixpoint walk_val (st : state) (n : nat) (s : sel) (v : value) : wres :=
                | None => WList []
                | Some ob =>
                    if sel_obj s (okind ob) then WList [([], LObj o)]
-                   else WList (walk_list (walk_val st n' s) (oattrs ob))
+                   else WList ((if sel_also s (okind ob) then [([], LObj o)] else [])
+                               ++ walk_list (walk_val st n' s) (oattrs ob))
                end
            end
   end.
@@ -310,16 +323,6 @@ Definition body_direct (o : nat) (d : dsel) : M cval :=
                   | None => CList [] end).
 Definition call_direct (o : nat) (d : dsel) : M cval := cached o (KDirect d) (body_direct o d).
 
-(* generic dispatcher (used to state cache validity) *)
-Definition call_key (o : nat) (k : ckey) : M cval :=
-  match k with
-  | KPit s f => call_pit o s f
-  | KAttr s f => call_attr o s f
-  | KUnique => call_unique o
-  | KOrdered => call_ordered o
-  | KDirect d => call_direct o d
-  end.
-
 (* ------------------------------------------------------------------ queries *)
 Inductive inst := IVal (c : Z) | ITup (l : list Z) | IRaw | IObj (fields : list (string * inst)).
 
@@ -330,10 +333,52 @@ Inductive answer :=
 | AInst (i : inst)
 | AInfo (a : list item) (n : nat) (b : list (path * option nat * nat)).
 
-Inductive query := QCount | QPaths | QOrdered | QInstance (v : list Z) | QInfo.
+Inductive query := QCount | QPaths | QOrdered | QInstance (v : list Z) | QInfo | QModels (cls : option nat) (izd : bool).
 
 Definition q_count (o : nat) : M nat :=
   c <- call_unique o ;; l <- as_list c ;; ret (List.length l).
+
+(* model_tuples_with_type: Models (found with ignore_children=False) whose class is a subclass of
+   cls (the test classes are unrelated: subclass = same class; None stands for `object`) and,
+   unless include_zero_dimension, have at least one free parameter *)
+Definition cls_match (cls : option nat) (k : kind) : bool :=
+  match k, cls with
+  | KModel c, Some c' => Nat.eqb c c'
+  | KModel _, None => true
+  | _, _ => false
+  end.
+Definition kind_of (st : state) (c : nat) : kind :=
+  match view st c with Some (k, _) => k | None => KTuple end.
+
+Definition body_mtt (o : nat) (cls : option nat) (izd : bool) : M cval :=
+  c <- call_attr o SModelRec 2 ;; l <- as_list c ;;
+  ls <- mapM (fun it : item =>
+                k <- gets (fun st => kind_of st (item_oid it)) ;;
+                if cls_match cls k then
+                  if izd then ret [it]
+                  else n <- q_count (item_oid it) ;; ret (if Nat.ltb 0 n then [it] else [])
+                else ret []) l ;;
+  ret (CList (List.concat ls)).
+Definition call_mtt (o : nat) (cls : option nat) (izd : bool) : M cval := cached o (KMtt cls izd) (body_mtt o cls izd).
+
+Definition body_mwt (o : nat) (cls : option nat) (izd : bool) : M cval :=
+  c <- call_mtt o cls izd ;; l <- as_list c ;; ret (CList (map (fun it : item => ([], snd it)) l)).
+Definition call_mwt (o : nat) (cls : option nat) (izd : bool) : M cval := cached o (KMwt cls izd) (body_mwt o cls izd).
+
+Definition q_models (o : nat) (cls : option nat) (izd : bool) : M (list item) :=
+  c <- call_mwt o cls izd ;; as_list c.
+
+(* generic dispatcher (used to state cache validity) *)
+Definition call_key (o : nat) (k : ckey) : M cval :=
+  match k with
+  | KPit s f => call_pit o s f
+  | KAttr s f => call_attr o s f
+  | KUnique => call_unique o
+  | KOrdered => call_ordered o
+  | KDirect d => call_direct o d
+  | KMtt c z => call_mtt o c z
+  | KMwt c z => call_mwt o c z
+  end.
 
 Definition q_paths (o : nat) : M (list item) :=
   c <- call_pit o SPrior 0 ;; l <- as_list c ;; ret (sort_by item_pid_le l).
@@ -367,8 +412,6 @@ Definition tuple_values (a : args) (t : nat) : M inst :=
 
 Definition ctor_names (cfg : config) (cls : nat) : list string := nth cls (classes cfg) [].
 
-Definition item_name (it : item) : string := match fst it with x :: _ => x | [] => "" end.
-Definition item_oid (it : item) : nat := match snd it with LObj o => o | _ => 0 end.
 
 Definition raw_inst (v : value) : inst := match v with VConst c => IVal c | _ => IRaw end.
 
@@ -486,6 +529,7 @@ Definition run_query (cfg : config) (o : nat) (q : query) : M answer :=
   | QOrdered => l <- q_ordered o ;; ret (AItems l)
   | QInstance v => i <- q_instance cfg o v ;; ret (AInst i)
   | QInfo => q_info o
+  | QModels cls izd => l <- q_models o cls izd ;; ret (AItems l)
   end.
 
 (* ------------------------------------------------------------------ freeze / unfreeze *)
@@ -699,8 +743,6 @@ Fixpoint inst_eqb (a b : inst) : bool :=
   | _, _ => false
   end.
 
-Definition optnat_eqb (a b : option nat) : bool :=
-  match a, b with Some x, Some y => Nat.eqb x y | None, None => true | _, _ => false end.
 Definition pent_eqb (a b : path * option nat * nat) : bool :=
   path_eqb (fst (fst a)) (fst (fst b)) && optnat_eqb (snd (fst a)) (snd (fst b)) && Nat.eqb (snd a) (snd b).
 
